@@ -18,7 +18,7 @@ import pulsarbat.readers as pbr
 from harness import exact as X
 from harness.common import qlit, zlit, optlit
 
-VFILES = ['Model/Disp.v', 'Model/Reader.v', 'Proofs/DispProofs.v', 'Proofs/ReaderProofs.v', 'Props/C11.v']
+VFILES = ['Model/Disp.v', 'Model/Reader.v', 'Proofs/DispProofs.v', 'Proofs/ReaderProofs.v', 'Gen/GenReader.v', 'Proofs/ReaderGen.v', 'Props/C11.v']
 DATA = '/repo/tests/data/'
 
 HEADER = '''From Coq Require Import ZArith QArith Qabs List Bool. Import ListNotations. Open Scope Z_scope.
@@ -243,7 +243,15 @@ def run(ctx):
             inp = dict(reader=s.name, offset=q[0], n=q[1], mode='dask')
             ctx.seen(inp); ctx.count('mode:dask')
             try:
-                zd = r.dask_read(*q) if rng.random() < 0.5 else r.read(*q, use_dask=True)
+                kwc = {}
+                if q[1] > 1 and rng.random() < 0.6:
+                    # an explicit chunks= argument, also one that splits the time axis (evenly or not): only the container changes
+                    n_ = q[1]
+                    tchunk = rng.choice([-1, max(1, n_ // 2), max(1, n_ // 3), (n_ - 1, 1), rng.randint(1, n_)])
+                    kwc['chunks'] = (tchunk,) + tuple(rng.choice([-1, 1]) for _ in r.sample_shape)
+                    inp['chunks'] = repr(kwc['chunks'])
+                    ctx.count('dask_read_with_chunks')
+                zd = r.dask_read(*q, **kwc) if rng.random() < 0.5 else r.read(*q, use_dask=True, **kwc)
                 if not hasattr(zd.data, 'compute'):
                     ctx.fail('dask_read_not_lazy', inp)
                     continue
